@@ -38,6 +38,22 @@ def pick_reps(am, stmts, maxn):
     return sorted(set(reps))[:maxn]
 
 
+def boundary_reps(am, maxn):
+    """range boundaries of the machine's byte classes: members whose predecessor or successor is outside the class (isolated bytes included)"""
+    out = []
+    for s in sorted(bisim.machine_sets(am), key=lambda x: (len(x), min(x))):
+        if len(s) < 3:
+            continue
+        bs = [b for b in sorted(s) if (b - 1) not in s or (b + 1) not in s]
+        iso = [b for b in bs if (b - 1) not in s and (b + 1) not in s]
+        for b in iso + bs:
+            if b not in out:
+                out.append(b)
+            if len(out) >= maxn:
+                return out
+    return out
+
+
 def check_program(item):
     src, argv, label, L, maxreps = item["src"], item["argv"], item["label"], item["L"], item["maxreps"]
     res = dict(label=label, argv=argv, status="ok", strings=0, schedules=0, feeds=0, problems=[], wschedules=0)
